@@ -5,9 +5,32 @@ PROPS = ["C02"]
 PROFILES = [(3, {"n_setup": (4, 8), "script_prob": 0.4, "share_fd_prob": 0.0, "err_ret_prob": 0.02, "stop_prob": 0.08, "kinds": {"comp": 5, "ping": 2, "timer": 2, "chan": 2}}), (1, {})]
 
 
+def queued_by_blocked_sender(chk, st):
+    """a message queued by a sender that was blocked in SyncSender::send is a pending cause like any other: the directed schedules of
+    the C04 scheduler harness (the loop drains between the try_send ping and the blocking send) judged for stranded messages"""
+    import p_c03
+    import p_c04
+    import vlib
+    cases = [c for c in p_c04.gen_cases("quick", 1) if c.startswith(("1 3 |", "2 3 |")) and "b" in c.split("|")[1]][:112]
+    out = p_c03.run_batch(vlib.HARNESS, "cchan", cases)
+    bad = []
+    for c, o in zip(cases, out):
+        fs = [f for f in p_c04.judge(c, o) if f.startswith(("stranded", "a sender stays blocked"))]
+        if fs:
+            bad.append((c, o, fs[0]))
+    chk.cov["blocked_sender_schedules"] = {"cases": len(cases), "failing": len(bad)}
+    if bad:
+        c, o, f = min(bad, key=lambda x: len(x[0]))
+        chk.violation("oracle-blocked-sender", "C02 violated on the real code: a queued message is not dispatched although the loop keeps dispatching: %s\n%s\n# executed steps and observations: %s" % (f, c, o))
+
+
 def main(tier, seed):
-    return p_seqprops.run("C02", tier, seed, PROFILES, props=PROPS)
+    return p_seqprops.run("C02", tier, seed, PROFILES, props=PROPS, extra_front=queued_by_blocked_sender)
 
 
 def replay(path):
+    txt = open(path).read()
+    if "=== " not in txt and txt.count("|") >= 2:
+        import p_c04
+        return p_c04.replay(path)
     return p_seqprops.replay("C02", path, props=PROPS)
